@@ -8,7 +8,9 @@ ENTRY = dict(
          "of ClientHelloSpec.UnmarshalJSON using the value-indexed names and imported, (b) imported raw by Fingerprinter.RawClientHello; both "
          "specs are applied to fresh connections with the same deterministic Config.Rand and the two wire hellos compared (suites, compression "
          "methods, extension order, extension bodies) after replacing GREASE values by 0x0a0a and blanking key_exchange / padding / psk bodies. "
-         "The name lists and the code points the importer produced go to Coq (CImportG/CImport); unknown names must be refused. Parts "
+         "Every name of every table the importer consults (zero-valued code points included) is part of some compared hello (cursors + closing pass) "
+         "and is also imported alone and as a whole table through each of the 10 list-valued JSON members, 5-7 unknown spellings per member "
+         "must be refused. The name lists and the code points the importer produced go to Coq (CImportG/CImport); unknown names must be refused. Parts "
          "the JSON format cannot express (ECH, code points without dictionary name) are stripped from the wire hello before both imports. Distinct by "
          "(hello, name list); non-trivial when the list has at least two names / the table at least two entries.",
     trusted_base=["go/parser + go/types evaluation of the dicttls map literals (translator harness/cmd/c32/gen.go)",
